@@ -3,6 +3,7 @@ package main
 // Frame inference: which heap arrays / ghost cells a function (or loop body) may write.
 
 import (
+	"os"
 	"fmt"
 	"go/token"
 	"go/types"
@@ -432,8 +433,15 @@ func (e *Engine) callMods(fn *ssa.Function, call *ssa.CallCommon, ms *ModSet, fr
 		cf := callee.Fn.(*ssa.Function)
 		ms.union(e.calleeMods(cf), cf.Parent() == fn)
 	default:
-		// function value: closures passed as parameters
-		ms.notes["indirect call through a function value (effects of the callee not tracked)"] = true
+		// function value: closed world over the address-taken named repo functions of that signature
+		cands := e.funcValueCandidates(call.Signature())
+		if len(cands) > 0 && len(cands) <= 8 && len(closureCandidates(call.Value)) == 0 {
+			for _, c := range cands {
+				ms.union(e.calleeMods(c), false)
+			}
+		} else if len(closureCandidates(call.Value)) == 0 {
+			ms.notes["indirect call through a function value (effects of the callee not tracked)"] = true
+		}
 	}
 	// pointers handed to callees without contract (see Frame.havocPointees)
 	e.pointeeMods(call, ms)
@@ -792,6 +800,8 @@ func staticBoxKey(v ssa.Value) string {
 
 func itoa(i int) string { return fmt.Sprintf("%d", i) }
 
+var dbgPointee = os.Getenv("GOVC_DEBUG_POINTEE") != ""
+
 func addPointeeKeys(et types.Type, ms *ModSet) {
 	if isStruct(et) {
 		u := et.Underlying().(*types.Struct)
@@ -827,6 +837,20 @@ func (e *Engine) pointeeMods(call *ssa.CallCommon, ms *ModSet) {
 		return
 	}
 	external := callee == nil || !isRepoFn(callee)
+	if call.IsInvoke() && len(e.implementers(call)) > 0 {
+		external = false // repo interface: the implementers' own writes are in their inferred frames
+	}
+	if callee == nil && !call.IsInvoke() {
+		if len(closureCandidates(call.Value)) > 0 || len(e.funcValueCandidates(call.Signature())) > 0 {
+			external = false // function value resolved by the closed-world dispatch
+		}
+		if _, isBuiltin := call.Value.(*ssa.Builtin); isBuiltin {
+			return
+		}
+	}
+	if dbgPointee {
+		fmt.Fprintf(os.Stderr, "POINTEE call %s external=%v\n", call.String(), external)
+	}
 	for _, a := range call.Args {
 		if mi, ok := a.(*ssa.MakeInterface); ok {
 			if et := derefType(mi.X.Type()); et != nil {
